@@ -814,22 +814,31 @@ fn exec_explore(w: &[&str], overlay: &mut HashMap<String, Bytes>, stats: &mut St
         ["bpmap", text, idx, addrs @ ..] => {
             let (text, idx) = (unhex(text), unhex(idx));
             // `iter` among the addresses = `iter_symbols()` collected at that point (None in the list)
-            let addrs: Vec<Option<u32>> = addrs.iter().filter_map(|a| if *a == "iter" { Some(None) } else { a.parse().ok().map(Some) }).collect();
+            // the token with `|` = `<intent>|<ties>`: statistics / the model's tie-break oracle, not used here
+            let intent = addrs.iter().find(|a| a.contains('|')).and_then(|a| a.split('|').next()).unwrap_or("");
+            let addrs: Vec<Option<u32>> = addrs.iter().filter(|a| !a.contains('|')).filter_map(|a| if *a == "iter" { Some(None) } else { a.parse().ok().map(Some) }).collect();
             let mut st = Stats::default();
+            if !intent.is_empty() {
+                st.bump(&format!("bpmap_intent_{intent}"));
+            }
             let r = guarded(|| {
-                if BreakpadIndex::parse_symindex_file(&idx[..]).is_err() {
-                    st.bump("bpmap_unparsed");
-                    return "served unparsed".to_string();
-                }
+                // (whether the stored index is used, ignored as foreign or rejected is `make_index_storage`'s
+                // business and is not decided here; only the load outcome and the lookups are printed)
+                st.bump(if BreakpadIndex::parse_symindex_file(&idx[..]).is_ok() { "bpmap_index_parses" } else { "bpmap_index_unparsable" });
                 let mut overlay = HashMap::new();
                 overlay.insert("t.sym".to_string(), Arc::from(text.into_boxed_slice()));
                 overlay.insert("t.symindex".to_string(), Arc::from(idx.into_boxed_slice()));
                 let sm = SymbolManager::with_helper(MemHelper { overlay });
                 let map = match futures::executor::block_on(sm.load_symbol_map_from_location(Loc("t.sym".into()), None)) {
                     Ok(m) => m,
-                    Err(_) => {
-                        st.bump("bpmap_notbreakpad");
-                        return "served notbreakpad".to_string();
+                    Err(e) => {
+                        let kind = match e {
+                            samply_symbols::Error::InvalidInputError(_) => "notbreakpad",
+                            samply_symbols::Error::BreakpadParsing(_) => "nomodule",
+                            _ => "loaderr",
+                        };
+                        st.bump(&format!("bpmap_{kind}"));
+                        return format!("served {kind}");
                     }
                 };
                 st.bump("bpmap_served");
